@@ -1,4 +1,3 @@
-\* exhaustive, narrow leaf set, nesting depth 3
 SPECIFICATION Spec
 CONSTANTS
   Ints <- DeepInts
